@@ -92,16 +92,21 @@ prop("C15", "packet identifiers non-zero and unique among outstanding requests",
      "withholds every acknowledgement until all requests are on the wire, 1..3 rounds; wrap: one request held unacknowledged "
      "while 65534 further requests complete. Oracle: ids non-zero and pairwise distinct among simultaneously outstanding "
      "requests, caller-chosen id unchanged; additionally (ViaRetry) E4 histories with cuts through the ReconnectClient: a "
-     "caller-chosen id is unchanged on every emission (deferred and retransmitted ones included), no emitted id is 0. Non-trivial = >= 2 goroutines/callers or the window crosses 0xFFFF->1; distinct = "
+     "caller-chosen id is unchanged on every emission (deferred and retransmitted ones included), no emitted id is 0. Wire also lets one "
+     "QoS1 publish give up while everything is outstanding, re-issues it through its retry handle on the same connection and then makes a "
+     "fresh request (its id must differ from all outstanding ones, the retransmitted one included). CarryOver: a publish interrupted on "
+     "client 1 is retried on client 2 (counter start generated relative to the carried id) while 0..6 fresh requests are made there. Non-trivial = >= 2 goroutines/callers or the window crosses 0xFFFF->1; distinct = "
      "FNV-64 of the case JSON.",
      [dict(tests="^TestVerifC15_(Alloc|FullCycle)$", checks_quick=1500, checks_thorough=60000, shards=4),
       dict(tests="^TestVerifC15_Alloc$", race=True, checks_quick=300, checks_thorough=9000, shards=4),
       dict(tests="^TestVerifC15_Wire$", checks_quick=2500, checks_thorough=90000, shards=6),
       dict(tests="^TestVerifC15_Wire$", race=True, checks_quick=300, checks_thorough=9000, shards=2),
       dict(tests="^TestVerifC15_Wrap$", checks_quick=3, checks_thorough=36, shards=2),
-      dict(tests="^TestVerifC15_ViaRetry$", checks_quick=1500, checks_thorough=24000, shards=4)],
+      dict(tests="^TestVerifC15_ViaRetry$", checks_quick=1500, checks_thorough=24000, shards=4),
+      dict(tests="^TestVerifC15_CarryOver$", checks_quick=400, checks_thorough=9000, shards=2, shards_quick=1)],
      assumptions=["caller-chosen identifiers are distinct from each other and outside the allocator's upcoming window (caller's responsibility)",
-                  "known finding D12 (re-use at allocation distance >= 65535) is excluded by construction and reported as KNOWN-FINDING"])
+                  "known finding D12 (re-use at allocation distance >= 65535) is excluded by construction and reported as KNOWN-FINDING",
+                  "known finding D18 (an identifier carried to another client by a retry handle collides with that client's allocator) is counted (excluded_known) and reported as KNOWN-FINDING; every other collision in those cases is a violation"])
 
 prop("C07", "a request completes only on its own acknowledgement", "exploration",
      "rapid-generated cases: 1..8 concurrent callers (Publish q1/q2, Subscribe with 1..4 filters and generated SUBACK code "
